@@ -898,7 +898,7 @@ func (x *Exec) step(st *State, ins ssa.Instruction) {
 	case *ssa.Defer:
 		x.deferCall(st, t)
 	case *ssa.RunDefers:
-		x.runDefers(st)
+		x.runDefers(st, t.Block())
 	case *ssa.Range:
 		st.Regs[t] = x.rangeInit(st, t)
 	case *ssa.Next:
